@@ -243,6 +243,13 @@ func Families(tier string) []Family {
 			c.Opts = []OptCfg{opt("bool", "v", 1), opt("string", "ver", 1), opt("incr", "verbose", 1, "version"), opt("bool", "profile", 1),
 				opt("bool", "verify", 2), opt("bool", "password", 2), opt("bool", "verb", 2)}
 			f.Defs = append(f.Defs, Def{Cfg: c, Tokens: toks, L: lim(tier, 3, 4)})
+			if mode == 0 {
+				// a two-pass program: an earlier Parse visited cmd before the help option existed; afterwards --hel / --he
+				// resolve against the names the level has now
+				ch := WithHelp(c, "help", "usage")
+				f.Defs = append(f.Defs, Def{Cfg: ch, Tokens: Ts("cmd", "--hel", "--he", "--ver", "--verb", "x"), L: 3,
+					Pres: [][]Tok{Ts("cmd", "--hel"), Ts("cmd", "--ver", "--he")}})
+			}
 		}
 		fams = append(fams, f)
 	}
@@ -516,6 +523,13 @@ func Families(tier string) []Family {
 					c.Opts = []OptCfg{o, other}
 					if ev != "<unset>" {
 						c.Env = []EnvCfg{{Name: T("VERIF_ENV_O"), Val: T(ev)}}
+					}
+					if ei == 2 && !defb {
+						// the option is also marked as called by the program, before the environment is looked at
+						cs := c
+						cs.Opts = []OptCfg{o, other}
+						cs.Opts[0].SetCalled, cs.Opts[0].ModLast = true, true
+						f.Defs = append(f.Defs, Def{Cfg: cs, Tokens: toks, L: 2})
 					}
 					d := Def{Cfg: c, Tokens: toks, L: lim(tier, 2, 3)}
 					if ei == 2 {
